@@ -1,9 +1,11 @@
 import Driver.Common
 import Driver.C08
+import Driver.C04
 open Lean Driver
 
 def handlers : List (String × Handler) := [
-  ("C08", Driver.C08.handle)
+  ("C08", Driver.C08.handle),
+  ("C04", Driver.C04.handle)
 ]
 
 def processLine (line : String) : String :=
